@@ -302,6 +302,20 @@ partial def chainLoop (stdin : IO.FS.Stream) (s : State) (seen : List Str) (name
       for d in dumpModules s2 do
         IO.println ("| " ++ d)
       chainLoop stdin s seen named
+  else if l == "reimport" then
+    IO.println ("> " ++ l)
+    -- the two modules restarted from their own export, in place; the history continues on the imported state
+    match importG s (jsonG (exportG s)) with
+    | none =>
+      IO.println "< panic"
+      for d in dumpChain s seen ++ dumpQueries s named do
+        IO.println ("| " ++ d)
+      chainLoop stdin s seen named
+    | some s2 =>
+      IO.println "< ok"
+      for d in dumpChain s2 seen ++ dumpQueries s2 named do
+        IO.println ("| " ++ d)
+      chainLoop stdin s2 seen named
   else if l.startsWith "atomic " then
     IO.println ("> " ++ l)
     match parseAtomic l with
